@@ -102,9 +102,10 @@ fn verify(spec: &Spec, vals: &[f64], comp: &Outs, st: &mut Stats, level: usize) 
 
 fn verify_unary(spec: &Spec, vals: &[f64], comp: &Outs, st: &mut Stats, level: usize) -> Result<(), Fail> {
     let inner = &spec.kids[0];
-    if inner.k.arity() == 0 && inner.k != K::Probe {
-        return Ok(()); // already stand-alone over a plain leaf
+    if inner.k == K::Echo {
+        return Ok(()); // already stand-alone over Echo
     }
+    // (a Constant leaf is decomposed too: it answers before the first update, which a wrapper must not exploit)
     let mut ctx = Ctx::default();
     let a = run_raw(inner, vals, &mut ctx)?;
     let mut outer = spec.clone();
